@@ -35,8 +35,8 @@ BOUNDS = {
     'quick': 'default table: n<=2,k<=2 and n=3,k<=1; legacy: n<=2,k<=2; delegates engine: n<=2; parens/shapes n<=2; '
              'every single insert_operator call over 12 anchors x 6 new operators x create_group, homogeneous ones parsed '
              'on all expressions n=1,k<=2 and n=2,k<=1 containing the new symbol',
-    'thorough': 'default table: n<=3,k<=2, n=4,k=0 and n=4,k<=1 in the one-space rendering; legacy: n<=3,k<=1 (k<=2 for n<=2); '
-                'all ordered pairs of insert_operator calls (second anchor alphabet + the first new operator), homogeneous ones parsed '
+    'thorough': 'default table: n<=3,k<=2 and n=4,k=0; legacy: n<=3,k<=1 (k<=2 for n<=2); all ordered pairs of insert_operator '
+                'calls (second call over 6 anchors + the first new operator as anchor), homogeneous ones parsed '
                 'on n=1,k<=1 and n=2,k=0 containing a new symbol, one-space rendering',
 }
 
@@ -71,9 +71,12 @@ def single_inserts():
     return [(a, b, s, t, cg) for (a, b) in ANCHORS for (s, t) in NEW for cg in (False, True)]
 
 
+SECOND_ANCHORS = [(None, True), ('*', True), ('-', False), ('not', False), ('->', True), ('nope', True)]
+
+
 def second_inserts(first):
-    """Calls that may follow `first`: the alphabet plus the new operator as anchor."""
-    anchors = ANCHORS + [(first[2], first[3] in M.BINARY)]
+    """Calls that may follow `first`: a reduced anchor alphabet plus the new operator itself as anchor."""
+    anchors = SECOND_ANCHORS + [(first[2], first[3] in M.BINARY)]
     return [(a, b, s, t, cg) for (a, b) in anchors for (s, t) in NEW if s != first[2] for cg in (False, True)]
 
 
@@ -422,7 +425,7 @@ def jobs(tier, seed):
     bins = table_parts(probe)[1]
     out = [('tables', 'job_tables', (tier,))]
     T, F = True, False
-    plan_d = [(1, 2, T), (2, 2, T), (3, 1, T)] if tier == 'quick' else [(1, 2, T), (2, 2, T), (3, 2, T), (4, 0, T), (4, 1, F)]
+    plan_d = [(1, 2, T), (2, 2, T), (3, 1, T)] if tier == 'quick' else [(1, 2, T), (2, 2, T), (3, 2, T), (4, 0, T)]
     plan_l = [(1, 2, T), (2, 2, T)] if tier == 'quick' else [(1, 2, T), (2, 2, T), (3, 1, T)]
     for op in bins:
         out.append(('default-seq-%s' % op, 'job_sequences', (default, plan_d, [op])))
